@@ -90,9 +90,18 @@ func (p c02) chains(c *core.Ctx, idx int) {
 		case sc == 0 && i == depth-1:
 			localTd.WriteString("    " + td)
 			lv.scope = 'L'
+			if r.Intn(2) == 0 {
+				// the module's own prefix on a name that is found in an enclosing scope, not at module level
+				lv.ref = "m:" + name
+				lv.scope = 'l'
+			}
 		case sc == 1:
 			subTd.WriteString("  " + td)
 			lv.scope = 'S'
+			if r.Intn(2) == 0 {
+				lv.ref = "m:" + name
+				lv.scope = 's'
+			}
 		case sc == 2 && (!strings.Contains(prev, "td") || strings.HasPrefix(prev, "imp:")):
 			// an imported typedef can only derive from built-ins or from typedefs of its own module
 			if strings.HasPrefix(prev, "imp:") {
